@@ -395,23 +395,39 @@ def _edge_extremes(run, P):
     n = 0
     for loop in loops:
         branch = "pole" if any(isinstance(x, ast.Name) and x.id == "pole_point" for x in ast.walk(loop)) else "normal"
-        asg = next((st for st in iter_stmts(loop.body) if isinstance(st, ast.Assign) and isinstance(st.targets[0], ast.Tuple) and [norm(e) for e in st.targets[0].elts] == ["lat_max", "lat_min"]), None)
+        asg = next((st for st in iter_stmts(loop.body) if isinstance(st, ast.Assign) and isinstance(st.targets[0], ast.Tuple) and len(st.targets[0].elts) == 2
+                    and all(isinstance(e, ast.Name) for e in st.targets[0].elts) and ["max" in st.targets[0].elts[0].id, "min" in st.targets[0].elts[1].id] == [True, True]), None)
         c = f"{f.key}:{branch}-branch:edge-extremes"
         if asg is None:
             run.incomplete("F-PATH/edge-extremes", c, where(f, loop), "assignment of (lat_max, lat_min) not found")
             continue
         n += 1
         v = asg.value
+        # a helper that chooses the pair is looked through: its returning paths become one conditional expression
+        if not isinstance(v, ast.IfExp):
+            from .. import symx
+            try:
+                v2 = symx.Expander(P, max_depth=2).expr(f, v, 0)
+            except Exception:  # noqa: BLE001
+                v2 = v
+            if isinstance(v2, ast.IfExp):
+                v = v2
         probs = []
         if not isinstance(v, ast.IfExp):
-            probs.append("(lat_max, lat_min) is not chosen by the edge type")
+            run.incomplete("F-PATH/edge-extremes", c, where(f, asg), f"the pair of extremes is `{norm(v)[:60]}`: not a choice by the edge type that this rule reads")
+            continue
         else:
-            if norm(v.test) != "is_GCA":
+            t_ = v.test.operand if isinstance(v.test, ast.UnaryOp) and isinstance(v.test.op, ast.Not) else v.test
+            gca_arm, other_arm = (v.orelse, v.body) if t_ is not v.test else (v.body, v.orelse)
+            if isinstance(t_, ast.BoolOp):
                 probs.append(f"the great-circle extremes are used only under '{norm(v.test)}': for the other great-circle edges the endpoint latitudes are taken, which misses the bulge of arcs longer than 90 degrees")
-            body = v.body.elts if isinstance(v.body, ast.Tuple) else []
+            elif not isinstance(t_, ast.Name):
+                run.incomplete("F-PATH/edge-extremes", c, where(f, asg), f"the pair of extremes is chosen under `{norm(v.test)[:60]}`: not the bare edge-type flag")
+                continue
+            body = gca_arm.elts if isinstance(gca_arm, ast.Tuple) else []
             kinds = []
             for b in body:
-                if isinstance(b, ast.Call) and (dotted(b.func) or [""])[-1] == "extreme_gca_latitude" and len(b.args) >= 2 and "n1_cart" in norm(b.args[0]) and "n2_cart" in norm(b.args[0]):
+                if isinstance(b, ast.Call) and (dotted(b.func) or [""])[-1] == "extreme_gca_latitude" and len(b.args) >= 2:
                     kinds.append(b.args[1].value if isinstance(b.args[1], ast.Constant) else None)
             if kinds != ["max", "min"]:
                 probs.append(f"great-circle branch yields {[norm(b)[:40] for b in body]}; expected (extreme(edge, 'max'), extreme(edge, 'min'))")
